@@ -1,6 +1,7 @@
 package props
 
 import (
+	"fmt"
 	"go/token"
 	"strings"
 
@@ -288,4 +289,58 @@ func cellOfParam(fn *ssa.Function, prm *ssa.Parameter) *ssa.Alloc {
 		}
 	}
 	return nil
+}
+
+// delegates: fn is a thin wrapper - every path through it calls callee exactly with the described arguments
+// ("recv", "p<i>" = fn's i-th parameter counting the receiver as 0 (for closures: the enclosing function's),
+// "nil", "int:<n>"). A wrapper that passes another key / count / target changes what the caller asked for.
+func (c *Ctx) delegates(fnName, callee string, args ...string) {
+	P := c.P
+	q := c.F(fnName)
+	if !q.ok() {
+		return
+	}
+	owner := q.fn
+	for owner.Parent() != nil {
+		owner = owner.Parent()
+	}
+	calls := P.CallsTo(q.fn, callee)
+	subj := "delegates to " + callee + " with its own arguments"
+	if !q.need(calls, "PROV", subj) {
+		return
+	}
+	for _, in := range calls {
+		cc := an.CallCommonOf(in)
+		ok := len(cc.Args) == len(args)
+		bad := ""
+		for i := 0; ok && i < len(args); i++ {
+			a := cc.Args[i]
+			match := false
+			switch {
+			case args[i] == "nil":
+				match = isNilConst(a)
+				if !match {
+					for _, s := range P.Sources(a) {
+						match = isNilConst(s)
+					}
+				}
+			case strings.HasPrefix(args[i], "int:"):
+				v, isC := constInt(a)
+				match = isC && fmt.Sprint(v) == strings.TrimPrefix(args[i], "int:")
+			case args[i] == "recv":
+				match = len(owner.Params) > 0 && srcIs(P, a, owner.Params[0])
+			case strings.HasPrefix(args[i], "p"):
+				var n int
+				fmt.Sscanf(args[i], "p%d", &n)
+				match = n < len(owner.Params) && srcIs(P, a, owner.Params[n])
+			}
+			if !match {
+				bad += " #" + fmt.Sprint(i) + " (want " + args[i] + ")"
+			}
+		}
+		good := ok && bad == ""
+		q.add("PROV", subj, good, pickS(good, callee+"("+strings.Join(args, ", ")+")", "the call passes something else for argument"+bad), in)
+	}
+	skip := P.PathExists(q.fn, nil, an.IsReturn, an.In(calls), nil)
+	q.add("PATH", "every path delegates to "+callee, !skip, pickS(!skip, "no return without the call", "the wrapper can return without delegating"), calls[0])
 }
